@@ -83,10 +83,10 @@ def r_byte_offsets(chk, P):
                 continue
             sites += 1
             tg = of(t["args"][1:])
-            live = live or "byte-index" in tg
+            live = live or bool(tg & {"byte-index", "byte-length"})
             chk.expect("char-count" not in tg, "%s @%d" % (fn, sites), "`str` slice offset in %s derives from a count of characters (char index used as byte offset): slicing a "
                        "multi-byte string panics or cuts a character" % fn, loc="%s:%s" % (f.get("file"), t.get("ln")))
-    chk.expect(live, "control: byte-index tag reaches a slice offset (comment_2822)", "positive control failed: the index of bytes().enumerate() no longer reaches any str slice offset (tags not live)")
+    chk.expect(live, "control: a byte-length / byte-index tag reaches a slice offset", "positive control failed: no str slice offset carries a byte-length (len, len_utf8, find) or byte-index tag (tags not live)")
 
 
 def r_witness(chk, P):
